@@ -237,6 +237,13 @@ func runCrash(a []string) {
 			for _, r := range guardedStep(st, f) {
 				fmt.Fprintln(out, "=", r)
 			}
+			// the moment the call returns: no file-system step, but the point at which what it acknowledged must be
+			// on stable storage (a call that skipped its fsync leaves no event of its own to hang a power loss on)
+			sc := map[string]int64{}
+			for k, v := range synced {
+				sc[k] = v
+			}
+			events = append(events, fsEvent{kind: "return", path: "-", n: 0, opIdx: i, op: o, image: snapshotDir(dir), synced: sc})
 		}
 		vhook.SetFS(nil)
 		if st.log != nil {
@@ -256,7 +263,9 @@ func runCrash(a []string) {
 			if first := strings.SplitN(ev.path, " ", 2)[0]; strings.HasSuffix(first, ".tmp") {
 				hdr += " tmp=1" // a step of index.Write's temporary file, not of the segment swap
 			}
-			observeImage(root, fmt.Sprintf("%s@%d", c.name, k+1), hdr, ev.image, openLine, keys, times, probeKeys)
+			if ev.kind != "return" {
+				observeImage(root, fmt.Sprintf("%s@%d", c.name, k+1), hdr, ev.image, openLine, keys, times, probeKeys)
+			}
 			// power loss (C06): at the last event of each API call, files lose unsynced tails
 			if k+1 == len(events) || events[k+1].opIdx != ev.opIdx {
 				for pi, img := range powerLossImages(ev) {
